@@ -87,6 +87,8 @@ def qr_jobs(rng, quick):
         add(ch + "A", 1, 2)
         add("A" + ch, 1, 2)
         add(ch, 0, 0)
+    for c in gen.magic_contents(rng):
+        add(c, rng.randrange(4), rng.choice([0, 3]))
     add(bytes(range(256)), 1, 3)
     add(bytes(range(255, -1, -1)), 3, 0)
     for b in range(0, 256, 5 if quick else 1):
